@@ -219,7 +219,7 @@ func cmdCheck(args []string) int {
 	}
 	d := *budget
 	if d == 0 {
-		d = 8 * time.Minute
+		d = 15 * time.Minute
 		if *tier == "thorough" {
 			d = 90 * time.Minute
 		}
